@@ -52,6 +52,7 @@ func (d *Data) MergeLabels(v dvid.VersionID, op labels.MergeOp, info dvid.ModInf
 
 	d.StartUpdate()
 	defer d.StopUpdate()
+	dvid.VerifPoint("yield:labelmap.MergeLabels:entry")
 
 	timedLog := dvid.NewTimeLog()
 	mutID = d.NewMutationID()
@@ -111,6 +112,7 @@ func (d *Data) MergeLabels(v dvid.VersionID, op labels.MergeOp, info dvid.ModInf
 	if err := d.addMutcache(v, mutID, targetIdx); err != nil {
 		dvid.Criticalf("unable to add merge mutid %d target index %d: %v\n", mutID, op.Target, err)
 	}
+	dvid.VerifPoint("yield:labelmap.MergeLabels:after-target-read")
 	delta.TargetVoxels = targetIdx.NumVoxels()
 	if mergeIdx, err = d.getMergedIndex(v, mergedIdxs, mutInfo, dvid.Bounds{}); err != nil {
 		err = fmt.Errorf("can't get block indices of merge labels %s: %v", op.Merged, err)
@@ -148,6 +150,7 @@ func (d *Data) MergeLabels(v dvid.VersionID, op labels.MergeOp, info dvid.ModInf
 		return
 	}
 	dvid.Infof("putting targetIdx with user %s\n", targetIdx.LastModUser)
+	dvid.VerifPoint("yield:labelmap.MergeLabels:before-put-target")
 	if err = PutLabelIndex(d, v, op.Target, targetIdx); err != nil {
 		return
 	}
@@ -216,6 +219,7 @@ func (d *Data) RenumberLabels(v dvid.VersionID, origLabel, newLabel uint64, info
 
 	d.StartUpdate()
 	defer d.StopUpdate()
+	dvid.VerifPoint("yield:labelmap.RenumberLabels:after-exists-check")
 
 	timedLog := dvid.NewTimeLog()
 	mutID = d.NewMutationID()
@@ -263,6 +267,7 @@ func (d *Data) RenumberLabels(v dvid.VersionID, origLabel, newLabel uint64, info
 	if err := d.addMutcache(v, mutID, mergeIdx); err != nil {
 		dvid.Criticalf("unable to add mutid %d index, renumber %d -> %d: %v\n", mutID, origLabel, newLabel, err)
 	}
+	dvid.VerifPoint("yield:labelmap.RenumberLabels:after-index-read")
 	if mergeIdx == nil {
 		err = fmt.Errorf("can't renumber non-existent body with label %d", origLabel)
 		return
@@ -295,6 +300,7 @@ func (d *Data) RenumberLabels(v dvid.VersionID, origLabel, newLabel uint64, info
 		targetIdx.LastModUser = info.User
 		targetIdx.LastModTime = info.Time
 		targetIdx.LastModApp = info.App
+		dvid.VerifPoint("yield:labelmap.RenumberLabels:before-put")
 		if err = PutLabelIndex(d, v, newLabel, targetIdx); err != nil {
 			return
 		}
@@ -403,6 +409,7 @@ func (d *Data) CleaveLabel(v dvid.VersionID, label uint64, info dvid.ModInfo, r 
 
 	d.StartUpdate()
 	defer d.StopUpdate()
+	dvid.VerifPoint("yield:labelmap.CleaveLabel:entry")
 
 	op := labels.CleaveOp{
 		MutID:              mutID,
@@ -931,6 +938,7 @@ func (d *Data) SplitSupervoxel(v dvid.VersionID, svlabel, splitlabel, remainlabe
 			label = mapped
 		}
 	}
+	dvid.VerifPoint("yield:labelmap.SplitSupervoxel:after-mapping-read")
 	shard := label % numIndexShards
 	indexMu[shard].Lock()
 	defer indexMu[shard].Unlock()
@@ -944,6 +952,7 @@ func (d *Data) SplitSupervoxel(v dvid.VersionID, svlabel, splitlabel, remainlabe
 		err = fmt.Errorf("unable to split supervoxel %d for data %q: missing label index %d", svlabel, d.DataName(), label)
 		return
 	}
+	dvid.VerifPoint("yield:labelmap.SplitSupervoxel:after-index-read")
 	svSize := idx.GetSupervoxelCount(svlabel)
 	if splitSize > svSize {
 		err = fmt.Errorf("split volume of %d > %d of supervoxel %d", splitSize, svSize, svlabel)
@@ -1076,6 +1085,7 @@ func (d *Data) SplitSupervoxel(v dvid.VersionID, svlabel, splitlabel, remainlabe
 		return
 	}
 	// store the new split index
+	dvid.VerifPoint("yield:labelmap.SplitSupervoxel:before-put-index")
 	if err = putCachedLabelIndex(d, v, idx); err != nil {
 		d.restoreOldBlocks(ctx, numBlocks, origBlocks)
 		err = fmt.Errorf("split supervoxel index for data %q, supervoxel %d: %v", d.DataName(), op.Supervoxel, err)
